@@ -9,6 +9,7 @@ import gen_contops  # noqa: F401
 import gen_contq    # noqa: F401
 import gen_l2rep    # noqa: F401
 import gen_contmut  # noqa: F401
+import gen_l2agg    # noqa: F401
 import gen_ser      # noqa: F401
 import gen_alias    # noqa: F401
 import gen_iter     # noqa: F401
